@@ -176,6 +176,11 @@ func (a *act) loopHead(li *loopInfo, b *ssa.BasicBlock, preds []*ssa.BasicBlock,
 		fx.havocSV(head, name, writes[name])
 	}
 	fx.ctx.Assert(fmt.Sprintf("(>= %s %s)", fx.now(head), nowBefore))
+	for _, name := range sortedKeys(writes) {
+		if !strings.HasPrefix(name, "$") {
+			fx.heapAllocFacts(writes[name], fx.sv(head, name, writes[name]), fx.now(head), "true")
+		}
+	}
 	li.headState = head.clone()
 	// loop frame from loopmodifies (assumed here, re-proved at each back edge)
 	for _, f := range a.loopFrames(li, head) {
@@ -630,6 +635,25 @@ func (a *act) applyContract(sp *FuncSpec, fn *ssa.Function, m *types.Func, args 
 	if _, noalloc := sp.Flags["noalloc"]; !sp.Pure && !noalloc {
 		n := fx.havocSV(st, "$now", SInt)
 		fx.ctx.Assert(fmt.Sprintf("(>= %s %s)", n, nowBefore))
+	}
+	for _, h := range heaps {
+		fx.heapAllocFacts(byHeap[h][0].sort, fx.sv(st, h, byHeap[h][0].sort), fx.now(st), "true")
+	}
+	if _, noalloc := sp.Flags["noalloc"]; !sp.Pure && !noalloc {
+		// objects created by the callee only point to objects that exist when it returns (also in heaps it does not "modify")
+		done := map[string]bool{}
+		for _, h := range heaps {
+			done[h] = true
+		}
+		for _, name := range sortedKeys(fx.svSort) {
+			if done[name] || strings.HasPrefix(name, "$") {
+				continue
+			}
+			srt := fx.svSort[name]
+			if k, v, ok := splitArr(srt); ok && k == SRef && (v == SRef || v == SIface || v == SSlice) {
+				fx.heapAllocFacts(srt, fx.sv(st, name, srt), fx.now(st), "true")
+			}
+		}
 	}
 	// decoder-style callees fill the struct behind an interface argument with arbitrary values of the field types
 	if hv, ok := sp.Flags["havocarg"]; ok {
